@@ -402,6 +402,9 @@ var reasonPatterns = map[string][]string{
 	"V-enum-empty":           {"enums must define at least one value"},
 	"V-enum-first-zero":      {"requires that first value of enum have numeric value zero", "first value of open enum"},
 	"V-enum-dup-num":         {"both have the same numeric value"},
+	"V-enum-num-reserved":    {"which is in reserved range"},
+	"V-enum-name-reserved":   {"is using a reserved name"},
+	"V-enum-range-overlap":   {"reserved ranges overlap"},
 	"V-oneof-empty":          {"oneof must contain at least one field"},
 	"V-map-key":              {"syntax error: unexpected \"bytes\"", "syntax error: unexpected \"float\"", "syntax error: unexpected \"double\"", "syntax error: unexpected '>'"},
 	"V-p3-default":           {"default values are not allowed in proto3"},
